@@ -201,6 +201,77 @@ def translate_thresholds(ctx=None, repo=None):
     return th
 
 
+def extract_buffer_bits(repo=None):
+    """
+    integer width of the per-worker scratch buffers and of the reduction's
+    accumulators in diff_exp/precompute_from_anndata.py:
+      buffer_dict[k] = np.zeros(.., dtype=int)            (int64: 63 value bits)
+      dst.create_dataset(k, data=buffer_dict[k])           (written as they are)
+      final_output[k] = np.zeros(src[k].shape, dtype=src[k].dtype)
+    Any other shape is not recognised (TranslateError).
+    """
+    repo = pathlib.Path(repo or core.REPO)
+    src = (repo / 'src' / 'cell_type_mapper' / 'diff_exp' /
+           'precompute_from_anndata.py').read_text()
+    tree = ast.parse(src)
+    fn = _func(tree, '_process_chunk_spec')
+    int_keys = set()
+    for node in ast.walk(fn):
+        if isinstance(node, ast.Assign) and len(node.targets) == 1 and \
+                isinstance(node.targets[0], ast.Subscript) and \
+                ast.unparse(node.targets[0].value) == 'buffer_dict':
+            txt = ast.unparse(node.value).replace(' ', '')
+            key = ast.literal_eval(node.targets[0].slice)
+            if txt.startswith('np.zeros(') and txt.endswith(',dtype=int)'):
+                int_keys.add(key)
+            elif txt.startswith('np.zeros(') and txt.endswith(',dtype=float)'):
+                pass
+            else:
+                raise TranslateError('buffer_dict[%r] = %s' % (key, txt))
+    if int_keys != {'n_cells', 'gt0', 'gt1', 'ge1'}:
+        raise TranslateError('integer buffers: %s' % sorted(int_keys))
+    written = None
+    for node in ast.walk(fn):
+        if isinstance(node, ast.For) and ast.unparse(node.iter) == 'buffer_dict':
+            body = [ast.unparse(b).replace(' ', '') for b in node.body]
+            written = body
+    if written != ['dst.create_dataset(k,data=buffer_dict[k])']:
+        raise TranslateError('buffers are not written as they are: %s'
+                             % written)
+    red = _func(tree, '_precompute_summary_stats_from_h5ad_and_lookup')
+    alloc = [ast.unparse(n.value).replace(' ', '') for n in ast.walk(red)
+             if isinstance(n, ast.Assign) and
+             ast.unparse(n.targets[0]) == 'final_output[k]']
+    if alloc != ['np.zeros(src[k].shape,dtype=src[k].dtype)']:
+        raise TranslateError('accumulators: %s' % alloc)
+    return int(np.iinfo(int).bits) - 1
+
+
+def translate_buffer_bits(ctx=None, repo=None):
+    bits = extract_buffer_bits(repo)
+    text = '\n'.join([
+        '/-',
+        '  GENERATED by harness/ctmverif/stats_util.py from',
+        '  src/cell_type_mapper/diff_exp/precompute_from_anndata.py',
+        '  (_process_chunk_spec, reduction of the worker buffers).',
+        '  Do not edit: rewritten by `./check C09` when the source changes.',
+        '  Number of value bits of the integer arrays of the per-worker',
+        '  scratch buffers (np.zeros(.., dtype=int), written as they are) and',
+        '  hence of the accumulators the reduction allocates with the dtype',
+        '  of the first buffer.',
+        '-/',
+        'namespace CTM.Generated',
+        '',
+        'def statsBufferIntBits : Nat := %d' % bits,
+        '',
+        'end CTM.Generated', ''])
+    changed = write_if_changed(GEN_DIR / 'StatsBuffers.lean', text)
+    if ctx is not None:
+        ctx.log('StatsBuffers.lean %s' % ('rewritten' if changed else 'unchanged'))
+        ctx.extra_cov['generated_buffer_int_bits'] = bits
+    return bits
+
+
 # ---------------------------------------------------------------------------
 # C16: the ladder of choose_int_dtype
 # ---------------------------------------------------------------------------
